@@ -3,8 +3,8 @@
    Layer A: theories/Deferred.v ([d_step], on top of the StorageCar model of Store.v);
    [d_trace c d_init ops] = the (state, result) pairs of a history, [d_run] its final state;
    [d_bytes] / [d_exists] = the bytes on the stream (or in the file) and whether the file exists.
-   All configurations [c] (path / stream target, any options, WriteAsCarV1 given or not, any roots) and
-   all operation lists. *)
+   All configurations [c] (path / stream target, any options, WriteAsCarV1 given or not, any roots, any
+   file already at the output path, ANY write-fault script of the output target) and all operation lists. *)
 From GoCar Require Import Bytes Varint Cid Header Frame V2Header Index Store Deferred.
 From GoCarProofs Require Import DeferredFacts.
 
@@ -23,13 +23,13 @@ Print Assumptions C20_lazy.
 
 (* identical: whenever the deferred writer has an inner writer, that writer's whole state -- file bytes,
    index, position, flags -- is the state of a DIRECT StorageCar writer opened with the same target kind,
-   roots and (effective) options, fed the Puts the history made before its first Close, and finalized
+   roots, (effective) options and fault script, fed the Puts the history made before its first Close, and finalized
    iff the history closed *)
 Theorem C20_identical :
   forall (c : dcfg) (ops : list dop) (s : wstate),
     d_inner (d_run c d_init ops) = Some s ->
     exists s0 : wstate,
-      open_new (dc_kind c) (eff_opts c) (dc_nilroots c) (dc_roots c) [] = Ok s0 /\
+      open_new (dc_kind c) (eff_opts c) (dc_nilroots c) (dc_roots c) (dc_faults c) = Ok s0 /\
       s = (let s1 := fold_left (fun s kd => fst (st_put s (fst kd) (snd kd))) (d_puts ops) s0 in
            if existsb is_close ops then fst (st_finalize s1) else s1).
 Proof. exact identical_init. Qed.
@@ -42,7 +42,7 @@ Theorem C20_output_is_direct_whatever_was_there :
   forall (c : dcfg) (ops : list dop) (s : wstate),
     d_inner (d_run c d_init ops) = Some s ->
     exists s0 : wstate,
-      open_new (dc_kind c) (eff_opts c) (dc_nilroots c) (dc_roots c) [] = Ok s0 /\
+      open_new (dc_kind c) (eff_opts c) (dc_nilroots c) (dc_roots c) (dc_faults c) = Ok s0 /\
       d_bytes c (d_run c d_init ops)
       = ws_file (let s1 := fold_left (fun s kd => fst (st_put s (fst kd) (snd kd))) (d_puts ops) s0 in
                  if existsb is_close ops then fst (st_finalize s1) else s1).
@@ -108,3 +108,22 @@ Theorem C20_closed_forever :
     d_created (d_run c st ops) = d_created st.
 Proof. exact closed_run. Qed.
 Print Assumptions C20_closed_forever.
+
+(* closed, with write faults: for every configuration -- in particular every fault script, so also when a
+   Put failed half-way and when Close's own Finalize fails -- and every history: once a Close has been
+   issued (whatever it returned), every later Has / Put / Close answers "closed", no callback fires, and
+   the inner writer and the file are not touched again *)
+Theorem C20_closed_after_any_close :
+  forall (c : dcfg) (pre post : list dop),
+    d_closed (d_run c d_init (pre ++ [DClose])) = true /\
+    Forall (fun x : dop * (dstate * dout) =>
+              ((match fst x with
+                | DOnPut _ _ => do_res (snd (snd x)) = ONil
+                | _ => do_res (snd (snd x)) = OErr EClosed
+                end) /\ do_log (snd (snd x)) = []) /\
+              d_closed (fst (snd x)) = true /\
+              d_inner (fst (snd x)) = d_inner (d_run c d_init (pre ++ [DClose])) /\
+              d_created (fst (snd x)) = d_created (d_run c d_init (pre ++ [DClose])))
+           (combine post (d_trace c (d_run c d_init (pre ++ [DClose])) post)).
+Proof. exact closed_after_any_close. Qed.
+Print Assumptions C20_closed_after_any_close.
